@@ -209,9 +209,25 @@ func mismatchKey(err error, text string, toks []token) string {
 		for i := range v {
 			v[i], _ = strconv.Atoi(m[i+2])
 		}
+		// A reported position that is the start of another token points at the parser (it attached the
+		// position of the wrong token); otherwise the scanner's coordinates are off.
+		for _, t := range toks {
+			if int(t.line) == v[2] && int(t.col) == v[3] {
+				return "C14 position of-another-token " + node + "." + m[1]
+			}
+		}
 		return "C14 position " + positionClass(text, toks, v[0], v[1], v[2], v[3])
 	}
-	return "C14 tree-mismatch " + node + ": " + normMsg(msg)
+	cat := msg
+	switch {
+	case strings.HasPrefix(msg, "want *syntax."):
+		cat = "node kind"
+	case strings.HasPrefix(msg, "literal \""):
+		cat = "literal value"
+	case strings.Contains(msg, ": "):
+		cat = msg[:strings.Index(msg, ": ")]
+	}
+	return "C14 tree-mismatch " + node + ": " + normMsg(cat)
 }
 
 // firstPos returns the position of the first token of n, derived from the grammar's productions.
@@ -281,10 +297,13 @@ func firstPos(n syntax.Node) syntax.Position {
 // spanCheck verifies on a parsed tree that every node's Span() starts at its first token, and that
 // the parentheses of ParenExpr (erased by the tree comparison) are where the text has them.
 func spanCheck(root syntax.Node, tokAt map[[2]int32]string) (n int, bad string) {
+	depth, badDepth := 0, -1
 	syntax.Walk(root, func(x syntax.Node) bool {
-		if x == nil || bad != "" {
-			return bad == ""
+		if x == nil {
+			depth--
+			return true
 		}
+		depth++
 		if _, ok := x.(*syntax.File); ok {
 			return true
 		}
@@ -294,19 +313,21 @@ func spanCheck(root syntax.Node, tokAt map[[2]int32]string) (n int, bad string) 
 		}
 		start, end := x.Span()
 		n++
-		if start.Line != want.Line || start.Col != want.Col {
-			bad = fmt.Sprintf("%T: Span() starts at %d:%d but the node's first token is at %d:%d", x, start.Line, start.Col, want.Line, want.Col)
-			return false
+		// of several failing nodes the deepest is reported: the outer ones inherit its start
+		report := func(msg string) {
+			if depth > badDepth {
+				bad, badDepth = msg, depth
+			}
 		}
-		if end.Line < start.Line || end.Line == start.Line && end.Col <= start.Col {
-			bad = fmt.Sprintf("%T: Span() end %d:%d is not after its start %d:%d", x, end.Line, end.Col, start.Line, start.Col)
-			return false
+		if start.Line != want.Line || start.Col != want.Col {
+			report(fmt.Sprintf("%T: Span() starts at %d:%d but the node's first token is at %d:%d", x, start.Line, start.Col, want.Line, want.Col))
+		} else if end.Line < start.Line || end.Line == start.Line && end.Col <= start.Col {
+			report(fmt.Sprintf("%T: Span() end %d:%d is not after its start %d:%d", x, end.Line, end.Col, start.Line, start.Col))
 		}
 		if p, ok := x.(*syntax.ParenExpr); ok && tokAt != nil {
 			if tokAt[[2]int32{p.Lparen.Line, p.Lparen.Col}] != "(" || tokAt[[2]int32{p.Rparen.Line, p.Rparen.Col}] != ")" {
-				bad = fmt.Sprintf("ParenExpr: parentheses reported at %d:%d and %d:%d, where the text has %q and %q", p.Lparen.Line, p.Lparen.Col, p.Rparen.Line, p.Rparen.Col,
-					tokAt[[2]int32{p.Lparen.Line, p.Lparen.Col}], tokAt[[2]int32{p.Rparen.Line, p.Rparen.Col}])
-				return false
+				report(fmt.Sprintf("ParenExpr: parentheses reported at %d:%d and %d:%d, where the text has %q and %q", p.Lparen.Line, p.Lparen.Col, p.Rparen.Line, p.Rparen.Col,
+					tokAt[[2]int32{p.Lparen.Line, p.Lparen.Col}], tokAt[[2]int32{p.Rparen.Line, p.Rparen.Col}]))
 			}
 		}
 		return true
@@ -550,7 +571,17 @@ func rejectKey(err error, toks []token) string {
 			}
 		}
 		if m := reGotWant.FindStringSubmatch(e.Msg); m != nil {
-			return pre + "got " + m[1]
+			got := strings.Trim(m[1], "'")
+			switch {
+			case keywords[got] || strings.ContainsAny(got, "()[]{}"):
+			case got == "newline" || got == "outdent" || got == "indent" || got == "end of file":
+				got = "end of line"
+			case strings.HasSuffix(got, "literal") || got == "":
+				got = "literal"
+			case got != "identifier":
+				got = "operator or punctuation"
+			}
+			return pre + "unexpected " + got
 		}
 		for _, t := range toks {
 			if t.line == e.Pos.Line && t.col == e.Pos.Col {
